@@ -19,6 +19,7 @@ EXPECTED_MISS = {
     "C18-D": "per-element maximum in canonicalList's struct-list branch is not decided (partial contract)",
     "C18-C": "rewrites the scanned loop: contract drift, reported UNDECIDED by design",
     "C18-A": "superseded: the code it patches was rewritten by the F20 fix",
+    "C16-A": "changes the loop header the invariants are attached to: contract drift, reported UNDECIDED by design",
     "C17-B": "patch predates fix 2a502ba and no longer applies (was caught by Equal#assert:sizerule)",
 }
 
